@@ -469,7 +469,9 @@ class TelstateDataSource(DataSource):
             telstate = katsdptelstate.TelescopeState()
             try:
                 rdb_store = S3ChunkStore(store_url, **kwargs)
-                rdb_data = rdb_store.request('GET', rdb_url, process=_read_object)
+                # Stream the response so that the body is downloaded by _read_object inside
+                # the retry loop of the store (which then keeps track of the retry budget)
+                rdb_data = rdb_store.request('GET', rdb_url, process=_read_object, stream=True)
                 telstate.load_from_file(io.BytesIO(rdb_data))
             except ChunkStoreError as e:
                 raise DataSourceNotFound(str(e)) from e
